@@ -124,7 +124,17 @@ func (l *listener) Serve() error {
 	}
 
 	verifPause("listener.bound", l)
+	l.mu.Lock()
 	l.ln = ln
+	l.mu.Unlock()
+	// Stop or Drain may have looked for the listener before it was published.
+	select {
+	case <-l.quit:
+		ln.Close()
+	case <-l.drain:
+		ln.Close()
+	default:
+	}
 	l.Infof("start serving at %s", ln.Addr().String())
 	l.serve()
 	l.Infof("stop serving at %s, waiting all conns done", ln.Addr().String())
@@ -263,10 +273,17 @@ func (l *listener) Drain() error {
 	l.drainOnce.Do(func() {
 		close(l.drain)
 	})
-	if l.ln != nil {
-		l.ln.Close()
+	if ln := l.published(); ln != nil {
+		ln.Close()
 	}
 	return nil
+}
+
+// published returns the listener once Serve has bound it.
+func (l *listener) published() net.Listener {
+	l.mu.Lock()
+	defer l.mu.Unlock()
+	return l.ln
 }
 
 func (l *listener) Stop() error {
@@ -278,6 +295,7 @@ func (l *listener) Stop() error {
 	started := l.started
 	conns := l.conns
 	l.conns = nil
+	ln := l.ln
 	// removeConn ignores connections once the registry is gone, settle them here.
 	for range conns {
 		l.stats.CxDestroyTotal.Inc()
@@ -285,8 +303,8 @@ func (l *listener) Stop() error {
 	}
 	l.mu.Unlock()
 
-	if l.ln != nil {
-		l.ln.Close()
+	if ln != nil {
+		ln.Close()
 	}
 	for conn := range conns {
 		conn.Close()
